@@ -87,6 +87,8 @@ LocalKinds == {"localhost", "loopback"}
 CmdFlags(o, e) ==
   LET v == e.verb IN
        Flag("C04_AfterGreeting", o.ss # "pre")
+  \* every line the server reads outside DATA / AUTH is a command it knows (an empty line or a lone "." is not)
+  \cup Flag("C04_KnownCommand", v # "OTHER")
   \cup Flag("C04_MailOutsideTxn", v = "MAIL" => (o.ss = "idle" /\ o.helo))
   \cup Flag("C04_RcptInsideTxn", v = "RCPT" => o.ss \in {"mail", "rcpt"})
   \cup Flag("C04_DataAllAccepted",
